@@ -101,9 +101,20 @@ def _search_run(ctx, n, cases):
                           timeout=3000 if ctx.thorough() else 600)
     import shutil
     shutil.rmtree(cwd, ignore_errors=True)
+    viol = []
+    for line in so.split('\n'):
+        if line.startswith('VIOL '):
+            try:
+                viol.append(json.loads(line[5:]))
+            except Exception:
+                pass
     for line in so.split('\n'):
         if line.startswith('SEARCH '):
             return json.loads(line[7:]), None
+    if viol:
+        # the run did not finish (time box / crash) but violations were flushed when found
+        return dict(evaluations=0, distinct=0, violations=viol, n=n, cases=cases,
+                    incomplete='searcher exited %d before its summary: %s' % (rc, (se or so)[-300:])), None
     return None, 'searcher exited %d: %s' % (rc, (se or so)[-1500:])
 
 
